@@ -351,8 +351,14 @@ sds_write_header (SF_PRIVATE *psf, int calc_length)
 
 	current = psf_ftell (psf) ;
 
-	if (calc_length)
-		psf->sf.frames = psds->total_written ;
+	/*
+	** The sample count that goes into the header is psf->sf.frames, which the
+	** sf_write_* functions keep at the end of the audio. The number of samples
+	** this handle has written is not the length of the file when the file was
+	** opened in SFM_RDWR mode (it already holds samples) or when a seek moved the
+	** write position back.
+	*/
+	(void) calc_length ;
 
 	if (psds->write_count > 0)
 	{	int current_count = psds->write_count ;
@@ -395,7 +401,7 @@ sds_write_header (SF_PRIVATE *psf, int calc_length)
 
 	psf_binheader_writef (psf, "e213", BHW2 (0), BHW1 (psds->bitwidth), BHW3 (samp_period)) ;
 
-	data_length			= SDS_INT_TO_3BYTE_ENCODE (psds->total_written) ;
+	data_length			= SDS_INT_TO_3BYTE_ENCODE ((int) psf->sf.frames) ;
 	sustain_loop_start	= SDS_INT_TO_3BYTE_ENCODE (0) ;
 	sustain_loop_end	= SDS_INT_TO_3BYTE_ENCODE (0) ;
 
